@@ -63,6 +63,18 @@ func histReplay(w *apiWorld, ctl *seqCtl, path []HistStep) (string, *chooser) {
 	return out, c
 }
 
+// keptModified: which results returned by EARLIER calls of the current history
+// no longer hold the bytes they held when they were returned.
+func keptModified(kept []keptResult, upto int) []string {
+	var bad []string
+	for i := 0; i < upto && i < len(kept); i++ {
+		if k := kept[i]; string(k.raw) != k.snap {
+			bad = append(bad, fmt.Sprintf("the result returned earlier by %s was %q and now reads %q", k.call, clip(k.snap, 120), clip(string(k.raw), 120)))
+		}
+	}
+	return bad
+}
+
 func init() {
 	checks["C09"] = &check{Engine: "histx", Shards: 16,
 		Run:    runHistx,
@@ -125,7 +137,7 @@ func histShard(ctx *core.Ctx, tier string, maxDepth, bound, shard, nshards int) 
 	trans := ctx.Counter("transitions")
 	ctx.Rep.Rule = fmt.Sprintf("BFS over call histories: menu of %d calls over ONE shared set of decoded Patch values and input buffers (Apply on object/array documents, ApplyIndent, copy limit hit, EscapeHTML off, failing test, malformed document, scalar root, inapplicable patch, DecodePatch ok/malformed/invalid/non-array, MergePatch x4 incl. malformed, MergeMergePatches, CreateMergePatch x4 incl. rejected/malformed, Equal x3 incl. malformed, legacy Apply and MergePatch); "+
 		"every Pool.Get answer is a choice (default LIFO; deviations: any other pooled object or a fresh one) and so is the order of every map iteration in the library packages (default sorted; deviations: its rotations), at most %d deviation(s) per history; state (computed for every history shorter than the depth bound) = generic dump of every package-level variable of the three library packages (pools with all private fields of recycled objects, type caches); dedup on the dump, successor = reset + replay shortest path + one call; depth <= %d or closure. "+
-		"Oracle per transition: outcome == solo outcome from the fresh-process state (error text / exact bytes for Apply, ApplyIndent, CreateMergePatch, Equal / JSON value otherwise); every shared buffer and Patch identical to its snapshot. non-trivial = transitions whose history has >= 2 calls", len(w.menu), bound, maxDepth)
+		"Oracle per transition: outcome == solo outcome from the fresh-process state (error text / exact bytes for Apply, ApplyIndent, CreateMergePatch, Equal / JSON value otherwise); every shared buffer and Patch identical to its snapshot; every byte slice returned by an earlier call of the history still holds the bytes it was returned with. non-trivial = transitions whose history has >= 2 calls", len(w.menu), bound, maxDepth)
 	ctx.Rep.Assume = append(ctx.Rep.Assume,
 		"state dump omits slice capacity and elements beyond len (see DESIGN.md E5); equal dumps are taken to have equal futures",
 		"the library's only process-wide mutable state is in package-level variables of its own packages (checked by the generated accessor, which lists every one) and in the shimmed pools/caches; standard-library internals (reflect, strconv caches) are trusted to be result-neutral",
@@ -150,8 +162,12 @@ func histShard(ctx *core.Ctx, tier string, maxDepth, bound, shard, nshards int) 
 				}
 				// enumerate pool answers inside this call, within the remaining budget
 				run := func(prefix []int) *chooser {
+					var kept []keptResult
+					w.keep = &kept
 					histReplay(w, ctl, node.path)
+					nEarlier := len(kept)
 					out, c := histRunStep(w, ctl, ci, prefix)
+					w.keep = nil
 					*trans++
 					if depth >= 2 {
 						nontrivial++
@@ -167,6 +183,10 @@ func histShard(ctx *core.Ctx, tier string, maxDepth, bound, shard, nshards int) 
 					for _, b := range w.inputsIntact() {
 						ctx.Violate(core.Violation{Property: "C09", Clause: "input-modified", Key: "C09:input-modified:" + w.calls[ci].Name, Engine: "histx",
 							Detail: b + " (history " + histText(path) + ")", Case: core.J(HistCase{Path: path})})
+					}
+					for _, b := range keptModified(kept, nEarlier) {
+						ctx.Violate(core.Violation{Property: "C09", Clause: "earlier-result-modified", Key: "C09:earlier-result-modified:" + w.calls[ci].Name, Engine: "histx",
+							Detail: b + " after the call " + w.calls[ci].Name + " (history " + histText(path) + "): a result must not alias state that later calls write", Case: core.J(HistCase{Path: path})})
 					}
 					d := deviations(c.trace, len(c.trace))
 					// at the last level nothing is expanded further: the fingerprint is not needed
@@ -253,7 +273,16 @@ func histReplayCase(ctx *core.Ctx, raw json.RawMessage) {
 	if len(hc.Path) == 0 {
 		return
 	}
-	out, c := histReplay(w, ctl, hc.Path)
+	var kept []keptResult
+	w.keep = &kept
+	histReplay(w, ctl, hc.Path[:len(hc.Path)-1])
+	nEarlier := len(kept)
+	lastStep := hc.Path[len(hc.Path)-1]
+	out, c := histRunStep(w, ctl, lastStep.Call, lastStep.Choices)
+	w.keep = nil
+	for _, b := range keptModified(kept, nEarlier) {
+		ctx.Violate(core.Violation{Property: "C09", Clause: "earlier-result-modified", Key: "C09:earlier-result-modified:" + lastStep.Name, Engine: "histx", Detail: b, Case: raw})
+	}
 	last := hc.Path[len(hc.Path)-1]
 	if c != nil && c.err != "" {
 		fmt.Fprintln(os.Stderr, "replay:", c.err)
